@@ -49,6 +49,8 @@ type schedSpec struct {
 	// Baseline: per instance, the digests of its solo run in a SEPARATE fresh process (sink calls, or rows for a reader).
 	// Without it the solo run of this process is the reference.
 	Baseline [][]string `json:"baseline"`
+	// Unstable: instances whose solo run came out differently when repeated after the other solo runs (reference process)
+	Unstable []int `json:"unstable"`
 }
 
 type instResult struct {
@@ -307,7 +309,22 @@ func runSched(c jobCase) {
 			runtime.GC()
 			base[i] = digestsOf(is, runInst(is, files[i], i+1, nil))
 		}
-		emit(event{"ev": "Baseline", "digests": base})
+		// ... and the same solo runs once more, in the opposite order: a solo run that comes out differently after other
+		// instances have run in this process depends on more than its own history (tables, caches and buffers that outlive an
+		// instance); the instances concerned are handed to the replay, which reports them
+		differs := make([]bool, n)
+		for i := n - 1; i >= 0; i-- {
+			runtime.GC()
+			runtime.GC()
+			differs[i] = !reflect.DeepEqual(digestsOf(ss.Insts[i], runInst(ss.Insts[i], files[i], i+1, nil)), base[i])
+		}
+		unstable := []int{}
+		for i, d := range differs {
+			if d {
+				unstable = append(unstable, i+1)
+			}
+		}
+		emit(event{"ev": "Baseline", "digests": base, "unstable": unstable})
 		return
 	}
 	if !foreignFirst {
@@ -452,8 +469,12 @@ func runSched(c jobCase) {
 	for _, is := range ss.Insts {
 		kinds = append(kinds, is.Kind+":"+is.Codec)
 	}
+	unstable := ss.Unstable
+	if unstable == nil {
+		unstable = []int{}
+	}
 	emit(event{"ev": "Sched", "kinds": kinds, "schedule": ss.Schedule, "prior": ss.Prior, "out": out, "diffs": diffs,
-		"switches": switches, "steps": steps, "pooltest": poolSelfTest()})
+		"switches": switches, "steps": steps, "pooltest": poolSelfTest(), "unstable": unstable})
 }
 
 func runStress(ss schedSpec, files [][]byte, solo []instResult) {
